@@ -260,6 +260,13 @@ def verus_unit(pid, spec, repo, tier, out):
             if fdi and all("limit" in d["message"].lower() for d in fdi) or (not fdi and only_rlimit):
                 out.undecided.append("%s: %s: resource limit exceeded in every configuration" % (name, nm))
                 continue
+            fninfo0 = next((x for x in unit.functions if nm.endswith(x["name"])), None)
+            if fninfo0 and fninfo0.get("unannotated_loops"):
+                # the current repo text has a loop the contracts give no invariant for: the proof cannot even be attempted,
+                # so its failure decides nothing (the fallback search on the real code still runs)
+                out.undecided.append("%s: %s now contains %d loop(s) without an invariant in the contracts (loop #%s): proof not attempted past them" % (
+                    name, nm, len(fninfo0["unannotated_loops"]), ",".join(map(str, fninfo0["unannotated_loops"]))))
+                continue
             msgs, locs = [], []
             for d in fdi:
                 o = wv.locate(unit, d["line"]) if d["line"] else None
